@@ -1099,6 +1099,11 @@ impl FunctionCompiler<'_> {
 
                 let addr = self.compile_expr_with_args(pointer, false)?;
 
+                if self_ty.is_zero_sized() && !no_load {
+                    // e.g. `p^` with `p : ^void`, there is nothing to load
+                    return None;
+                }
+
                 let self_ty = self_ty.get_final_ty();
 
                 let self_ty = if no_load {
